@@ -20,7 +20,9 @@ import sys
 import tempfile
 from pathlib import Path
 
-STAMP = re.compile(r"^// Generated using fcp \S+ on \d{4}-\d{2}-\d{2} \d{2}:\d{2}:\d{2} by [^\s@]+@\S+$")
+# the documented stamp: one full comment line "// Generated using fcp <version> on <date> by <user>@<host>"
+# (the spelling of <date> is not fixed by the documentation; everything else on the line is)
+STAMP = re.compile(r"^// Generated using fcp \S+ on \S.*? by [^\s@]+@\S+$")
 
 
 def normalise(contents: str) -> str:
